@@ -133,7 +133,7 @@ def stage_node(ctx, e, only=None, n=None):
         for m in (db.StorageTransferAction, db.ArchiveFileCopyRequest, db.ArchiveFileImportRequest, db.ArchiveFileCopy,
                   db.ArchiveFile, db.ArchiveAcq, db.StorageNode, db.StorageGroup):
             m.delete().execute()
-        avail_kib = rng.choice([None, 10, 50, 99, 100, 500])
+        avail_kib = rng.choice([None, 10, 50, 95, 96, 97, 98, 99, 100, 500])
         g, node = mk_hsm_node(e, w, avail_kib=avail_kib, release_count=rng.choice([2, 5, 100]))
         acq = w.acq("acq")
         q = FairMultiFIFOQueue()
@@ -145,7 +145,7 @@ def stage_node(ctx, e, only=None, n=None):
         for _ in range(rng.randint(0, 3)):          # offset file ids from copy ids
             w.file(acq, f"dummy{_}.dat", b"d")
         for i in range(rng.randint(1, 6)):
-            f = w.file(acq, f"f{i}.dat", bytes(rng.getrandbits(8) for _ in range(rng.choice([1, 10, 30000, 60000]))))
+            f = w.file(acq, f"f{i}.dat", bytes(rng.getrandbits(8) for _ in range(rng.choice([1, 10, 1024, 1024, 2048, 30000, 60000]))))
             c = db.ArchiveFileCopy.create(file=f, node=node, has_file=rng.choice("YYYYMN"), wants_file="Y", ready=rng.random() < 0.6,
                                           last_update=__import__("datetime").datetime(2020, 1, 1) + __import__("datetime").timedelta(days=rng.randint(0, 50), seconds=i))
             stub.states[str(c.path)] = rng.choice(STATES + [None])
@@ -260,6 +260,21 @@ def stage_node(ctx, e, only=None, n=None):
         elif kind == "release":
             rows = list(db.ArchiveFileCopy.select().where(db.ArchiveFileCopy.node == node, db.ArchiveFileCopy.has_file == "Y",
                                                           db.ArchiveFileCopy.ready == True).order_by(db.ArchiveFileCopy.last_update))  # noqa: E712
+            if len(rows) >= 2 and rng.random() < 0.5:
+                # boundary: the shortfall equals the cumulative size of the first k releasable copies exactly
+                for c in rows:
+                    db.ArchiveFile.update(size_b=1024 * rng.randint(1, 3)).where(db.ArchiveFile.id == c.file_id).execute()
+                    if rng.random() < 0.8:
+                        stub.states[str(c.path)] = "restored"
+                rows = list(db.ArchiveFileCopy.select().where(db.ArchiveFileCopy.node == node, db.ArchiveFileCopy.has_file == "Y",
+                                                              db.ArchiveFileCopy.ready == True).order_by(db.ArchiveFileCopy.last_update))  # noqa: E712
+                restored = [c for c in rows if stub.states.get(str(c.path)) == "restored"]
+                if len(restored) >= 2:
+                    k_ = rng.randint(1, len(restored) - 1)
+                    target = sum(c.file.size_b for c in restored[:k_])
+                    avail_kib = 100 - target // 1024
+                    db.StorageNode.update(avail_gb=avail_kib / 2 ** 20).where(db.StorageNode.id == node.id).execute()
+                    ctx.count("node:release-exact-fit")
             stub.calls.clear()
             io.set_storage(db.StorageNode.get(id=node.id)) if hasattr(io, "set_storage") else None
             io.release_files()
